@@ -130,6 +130,8 @@ type Path struct {
 	onceDone   map[*Value]bool
 	lastTime   *Term
 	isInitPath bool
+	top        *frame
+	initDepth  int
 	budgetInit bool
 	budget     int
 	spec       bool
@@ -157,7 +159,19 @@ func (p *Path) abort(kind, format string, a ...interface{}) {
 }
 
 func (p *Path) unsupported(format string, a ...interface{}) {
-	panic(pathEnd{"unsupported", fmt.Sprintf(format, a...)})
+	panic(pathEnd{"unsupported", fmt.Sprintf(format, a...) + p.stackString()})
+}
+
+// stackString: the innermost target-program frames (diagnostics only).
+func (p *Path) stackString() string {
+	var names []string
+	for fr := p.top; fr != nil && len(names) < 8; fr = fr.caller {
+		names = append(names, fr.fn.String())
+	}
+	if len(names) == 0 {
+		return ""
+	}
+	return " [in " + strings.Join(names, " <- ") + "]"
 }
 
 func (p *Path) addPC(t *Term) {
@@ -378,7 +392,7 @@ func (p *Path) doAssert(c *Term, id string, site string) {
 		return
 	}
 	p.sol.SetTimeout(p.eng.cfg.ObligMs)
-	r := p.sol.CheckWith(p.st, p.st.Not(c))
+	r := p.sol.CheckWithFallback(p.st, p.st.Not(c), p.eng.cfg.ObligMs)
 	p.eng.countOblig(p.harness)
 	switch r {
 	case Unsat:
